@@ -146,7 +146,7 @@ func (l *Lexer) Split() []*Token {
 			next = 0
 		}
 		switch char {
-		case ' ':
+		case ' ', '\t', '\n', '\v', '\f', '\r':
 			if strStart {
 				tokLen++
 				break
